@@ -326,10 +326,11 @@ func podsClass(kind string, set []W, p *corev1.Pod, got bool) string {
 		noSel = "service without selector selects pods"
 	}
 	switch {
+	case got && otherNSMatch:
+		// some workload of ANOTHER namespace matches (by selector or by template labels): the namespace is what is ignored
+		return "accepts pod in other namespace"
 	case got && lackingHere:
 		return noSel
-	case got && otherNSMatch:
-		return "accepts pod in other namespace"
 	case got && lacking:
 		return noSel
 	case got:
